@@ -608,6 +608,27 @@ Proof.
            (cinv_init _ _ _ _ _ _ (ginv_fanin_init n f cap srcs)) R Hc).
 Qed.
 
+(* ... and for GenerateParallel (the worker with the explicit context test; any way the generator ends) *)
+Theorem gen_no_early_close n e input s :
+  reach (gen_net n e) (gen_init n input) s -> closedb s 0 = true ->
+  cancelledb (gen_net n e) s 1 = true \/ (s_wg s = 0 /\ forall j, j < n -> isdone s (3 + j)).
+Proof.
+  intros R Hc.
+  assert (A1 : nth_error (n_procs (gen_net n e)) 0 = Some (usr (cons_init_prog n 0))) by reflexivity.
+  assert (A2 : nth_error (n_procs (gen_net n e)) 2 = Some (bg (closer_prog 0))) by reflexivity.
+  assert (A3 : forall j, j < n -> exists prog, nth_error (n_procs (gen_net n e)) (3 + j) = Some (wgp prog)).
+  { intros j Hj. exists (gen_prog e). cbn [gen_net n_procs]. apply (nth_workers _ _ _ (fun _ => wgp (gen_prog e))); auto. }
+  assert (A4 : forall p d i, nth_error (n_procs (gen_net n e)) p = Some d -> p <> 0 -> p <> 2 -> In i (d_prog d) -> harmless 0 i = true).
+  { intros p d i Hd H0 H2 Hi. cbn [gen_net n_procs] in Hd.
+    apply nth_workers_inv in Hd as [(-> & _)|[(-> & ->)|[(-> & _)|(j & _ & -> & ->)]]]; try congruence;
+      eapply harmless_forall; eauto; destruct e; reflexivity. }
+  assert (A5 : forall p d, nth_error (n_procs (gen_net n e)) p = Some d -> d_wg d = true -> exists j, j < n /\ p = 3 + j).
+  { intros p d Hd Hw. cbn [gen_net n_procs] in Hd.
+    apply nth_workers_inv in Hd as [(-> & ->)|[(-> & ->)|[(-> & ->)|(j & Hj & -> & ->)]]]; try discriminate. eauto. }
+  exact (no_early_close_gen (gen_net n e) n 0 A1 A2 A3 A4 (wf_gen_net n e) A5 (gen_init n input) s
+           (cinv_init _ _ _ _ _ _ (ginv_gen_init n e input)) R Hc).
+Qed.
+
 (* non-vacuity: a finished Map run has its output closed, with the wait group at zero *)
 Example map_closed_at_end :
   let s := run (map_net 2) 1000 0 false None (map_init 2 [1; 2; 3]%Z) in
